@@ -32,7 +32,7 @@ def signed_ranks(*arrays):
     return out
 
 
-def concretise_ranks(ranks, lo_inf=None, hi_inf=None, rng=None, near=False):
+def concretise_ranks(ranks, lo_inf=None, hi_inf=None, rng=None, near=False, scale=None):
     """Abstract integer values -> floats with the same order and sign.
     Optionally the smallest negative / largest positive value becomes
     -inf / +inf."""
@@ -47,6 +47,8 @@ def concretise_ranks(ranks, lo_inf=None, hi_inf=None, rng=None, near=False):
             base[v] = 0.25 * v if rng is None else float(v - 1 + rng.uniform(0.05, 0.95))
         else:
             base[v] = -0.5 * (-v) if rng is None else float(v + 1 - rng.uniform(0.05, 0.95))
+    if scale is not None:   # huge magnitudes (x - 1 == x): same order and sign
+        base = {v: b * scale for v, b in base.items()}
     if lo_inf and vals and vals[0] < 0:
         base[vals[0]] = -np.inf
     if hi_inf and vals and vals[-1] > 0:
